@@ -51,6 +51,25 @@ def run_tlc(spec: str, cfg: str, *, workers=1, env=None, extra=(), timeout=3600,
         shutil.rmtree(meta, ignore_errors=True)
 
 
+def run_tlc_to_file(spec: str, cfg: str, path: str, *, workers=1, extra=(), timeout=3600, heap="3g"):
+    """Like run_tlc, but TLC's output goes to `path` (behaviour dumps can be gigabytes).  Returns (rc, wall)."""
+    meta = tempfile.mkdtemp(prefix="tlcmeta-")
+    e = dict(os.environ)
+    e.pop("JAVA_TOOL_OPTIONS", None)
+    cmd = _java(heap=heap) + ["tlc2.TLC", "-workers", str(workers), "-metadir", meta, "-noGenerateSpecTE",
+                              "-config", cfg, *extra, spec]
+    t0 = time.time()
+    try:
+        with open(path, "w") as f:
+            r = subprocess.run(cmd, stdout=f, stderr=subprocess.STDOUT, text=True, env=e, timeout=timeout,
+                               cwd=os.path.dirname(spec))
+        return r.returncode, time.time() - t0
+    except subprocess.TimeoutExpired as ex:
+        raise MachineryError(f"TLC timed out after {timeout}s: {spec}") from ex
+    finally:
+        shutil.rmtree(meta, ignore_errors=True)
+
+
 _VERDICT = re.compile(r'<<"VERDICT",\s*(\d+),\s*"([^"]*)",\s*(\d+)>>')
 _STATS = re.compile(r"(\d+) states generated, (\d+) distinct states found")
 
